@@ -152,6 +152,26 @@ TABLE = {
              "parameter samples from their own range or table (table first, both documented shapes accepted).",
         note="'empty entry' read as None / {} / absent; tables disjoint from ranges so the source of a sample is unambiguous",
         ref="DESIGN.md §4 C15"),
+    "C18": dict(
+        technique="fault enumeration through public extension points (optax transformation with step counter, user equation), return value vs reference loop",
+        level="fault_enumeration",
+        text="A NaN is injected at every iteration k of a 6-iteration run and at every origin (loss value via a user "
+             "equation keyed on a tick parameter, gradient of a network leaf, gradient of an equation parameter, "
+             "optimizer update), for sgd/adam and ODE/stationary losses, plus fault-free controls and double faults; the "
+             "returned parameters must be those held just before iteration k (NaN-free), histories up to k those of the "
+             "reference loop, later entries untouched.",
+        note="quick tier enumerates k x origin for one loss/optimizer pair (rotating with VERIF_SEED), thorough for all four",
+        ref="DESIGN.md §4 C18"),
+    "C19": dict(
+        technique="trace checker: scripted validation module logging through jax.debug.callback + validation automaton + reference loop",
+        level="exploration",
+        text="(a) every script of per-call (stop, improve) outcomes up to length 3 (4 thorough) x period is run inside the real "
+             "solve with a harness-written validation module that logs (call index, digest of the parameters it receives): "
+             "call schedule, post-update parameters, criterion carried forward, stop right after the first request and best "
+             "parameters are checked; (b) the real ValidationLoss is driven directly over all 3^5 value sequences (ties "
+             "included) x patience x enabled; (c) ValidationLoss inside solve with its own generators vs the reference loop.",
+        note="after the first stop request of a directly driven ValidationLoss the stop output is not checked",
+        ref="DESIGN.md §4 C19, Appendix A.4"),
     "C20": dict(
         technique="runtime purity monitor: deep argument snapshots before/after, eager vs jit vs value_and_grad vs disable_jit, jax.checking_leaks()",
         level="exploration",
